@@ -11,7 +11,7 @@ from ..oracle import caching_flags_off
 from ..oracle import (ACCEPT, REJECT, EITHER, slack3, slack_tripped_int, and3,
                       verdict3, validsig, sha256, shake256, pubkey_of_seed,
                       bool_of, base_mult, point_add, as_key_arg, PREFIXES, DECORATIONS, SUFFIXES,
-                      LOCK_FORMS, LIMITS, in_form, code_of, WRAPS, wrap_lock, malleate,
+                      LOCK_FORMS, LIMITS, in_form, code_of, WRAPS, wrap_lock, malleate, pick_bit,
                       ARG_STYLES, styled_flags, styled_sigfields, maybe_twice)
 
 PID = 'C15'
@@ -154,7 +154,7 @@ def gen_step(rng, cell, oid, out, clocks, vname, thr, fault_free):
             # the clock system call itself fails, once, during the validation
             step['faults'].append({'at_read': rng.below(2), 'kind': 'fail'})
         if rng.chance(1, 6):
-            step['corrupt'] = {'item': rng.below(3), 'bit': rng.below(520)}
+            step['corrupt'] = {'item': rng.below(3), 'bit': pick_bit(rng, 512)}
             if rng.chance(1, 5):
                 step['corrupt'] = {'item': 0, 'bit': 0, 'malleate': True}
         elif rng.chance(1, 7):
